@@ -31,7 +31,18 @@ type c16in struct {
 }
 
 func c16mode() string {
-	switch vrt.Choose(5) {
+	switch vrt.Choose(8) {
+	case 5:
+		// a date that does not parse leaves the mode word in force
+		vos.AddFile(c16dir+"/mode", []byte([]string{"off 2024-1-5", "off  2024-01-05", "off 05/01/2024", "off x"}[vrt.Choose(4)]))
+		return "off"
+	case 6:
+		// the last character of the date is arbitrary
+		vos.AddFile(c16dir+"/mode", []byte("off 2024-01-0"+vrt.String(1)))
+		return "off"
+	case 7:
+		vos.AddFile(c16dir+"/mode", []byte("on 2024-1-5"))
+		return "on"
 	case 0:
 		return "local" // no mode file
 	case 1:
